@@ -156,7 +156,7 @@ def native_replay(ws, g, inputs, outdir):
 
 
 def write_replay(prop, g, ob, r, ws, allobs=()):
-    d = os.path.join(VERIF, "replays")
+    d = os.environ.get("QSV_REPLAY_DIR") or os.path.join(VERIF, "replays")
     os.makedirs(d, exist_ok=True)
     name = "%s-%s-%s" % (prop, re.sub(r"[^A-Za-z0-9]+", "_", g.name), re.sub(r"[^A-Za-z0-9.]+", "_", ob.cls()))
     path = os.path.join(d, name + ".replay.json")
